@@ -244,6 +244,11 @@ def bases(ctx, d):
     return out
 
 
+STRESS = ["a" * 40 + "!", "en-" + "abcdefgh" * 6 + ".", "x" * 64 + "\u00e9", "a-" * 30 + "!", "aA1" * 20 + " ", "0" * 50 + "x",
+          " " * 200, "\t\n" * 50, "a" * 5000, "/" * 100 + "..", "http://" + "a." * 40, "%" * 60, "(a+)+" * 10 + "!", "\\" * 80,
+          "a_" * 30 + "$", "1." * 30 + "x", "#" * 70, "-" * 70 + "a", "\u00e9" * 50 + "\x00", '[["' * 20, "en" + "-abcdefgh" * 8 + "_",
+          "A" * 31 + "\n", "file://" + "a/" * 60 + "\x7f", "1" * 45 + "e", "0x" + "f" * 40 + "g"]
+
 HANG_S = 10   # wall-clock seconds the parent waits for ONE input before it declares a hang and kills the worker
 
 
@@ -375,6 +380,22 @@ def run(ctx: core.Check):
             n += 1
             mutants[n] = bytes(b)
             meta[n] = {"base": bi, "muts": "random-bytes"}
+    # text content: every text string of every base replaced by strings that stress whatever inspects text (long runs closed by a
+    # character of another class, nested punctuation, white space, non-ASCII tails) - well-formed CBOR, unusual CONTENT
+    for bi, base in enumerate(bs):
+        ns = nodes(to_tree(cborx.loads(base)))
+        tpos = [i for i, (n_, _, _) in enumerate(ns) if n_.kind == "tstr"]
+        for j, i in enumerate(tpos):
+            picks = STRESS
+            for st in picks:
+                root = to_tree(cborx.loads(base))
+                n_, parent, pos = nodes(root)[i]
+                if parent is None:
+                    continue
+                parent.kids[pos] = Node("tstr", st)
+                n += 1
+                mutants[n] = enc(root)
+                meta[n] = {"base": bi, "muts": f"text-{i}-{STRESS.index(st)}"}
     # chains of integrated dependency envelopes, each a byte string inside the previous one (the CBOR decoder's depth limit does not
     # apply across byte strings): a minimal envelope whose member "#d" holds the next one
     def chain(depth):
